@@ -305,13 +305,13 @@ Example C07_example_whole_document :
   | None => false end = true.
 Proof.
   split; [|vm_compute; repeat split].
-  unfold C07_example_skdoc, skdoc_ok. cbn [k_tt k_styles k_regions k_divs]. split; [cbn; repeat split|].
+  unfold C07_example_skdoc, skdoc_ok. cbn [k_tt k_styles k_regions k_divs]. split; [cbn [attrs_ok tt_attrs]; repeat split; reflexivity|].
   split; [repeat constructor|]. split; [repeat constructor|].
   constructor; [|constructor; [|constructor]].
-  - split; [cbn; repeat split|]. cbn [kd_ps]. constructor; [|constructor; [|constructor]].
-    + split; [cbn; repeat split|]. eexists. vm_compute. reflexivity.
-    + split; [cbn; repeat split|]. eexists. vm_compute. reflexivity.
-  - split; [cbn; repeat split|constructor].
+  - split; [cbn [attrs_ok tt_attrs]; repeat split; reflexivity|]. cbn [kd_ps]. constructor; [|constructor; [|constructor]].
+    + split; [cbn [attrs_ok tt_attrs]; repeat split; reflexivity|]. eexists. vm_compute. reflexivity.
+    + split; [cbn [attrs_ok tt_attrs]; repeat split; reflexivity|]. eexists. vm_compute. reflexivity.
+  - split; [cbn [attrs_ok tt_attrs]; repeat split; reflexivity|constructor].
 Qed.
 Example C07_example_document_machine_refuses :
   doc_parse (lit "<a/><b/>") = None /\ doc_parse (lit "<a/>x") = None /\ doc_parse (lit "x<a/>") = None /\
